@@ -63,6 +63,8 @@ def run_mpi_cases(agg, binary, seed, P, a, b, opts, timeout, source, entries, ma
     """cases [a,b) inside mpiexec -n P jobs; a job that dies or hangs is attributed to the (case, entry) whose ENTER has no RETURN"""
     cur = a
     rerun_at = None
+    if lib.FAST:   # mutation sweeps: a hanging mutant should not cost two full watchdogs per job
+        timeout = min(timeout, 90); hang_rerun = False
     while cur < b:
         d = tempfile.mkdtemp(prefix='mpi-', dir=os.path.join(lib.tree_dir()))
         prefix = os.path.join(d, 'r')
